@@ -15,7 +15,12 @@ Inductive case :=
 (* high-volume run without a log (counters kept by the harness): values sent, values received,
    values received more than once, closure reports before any close was invoked, receipts that
    were out of order for their sender as seen by one receiver *)
-| CStress (sent recvd dups early disorder : Z).
+| CStress (sent recvd dups early disorder : Z)
+(* library objects are per state: digest of what a state can reach from its globals before any
+   other state changed anything (ref), the same digest taken by states created before / after /
+   concurrently with states that change every table they can reach (obs), number of library
+   functions whose environment is not the inspecting state's own globals *)
+| CLib (ref : list Z) (obs : list (list Z)) (foreign : Z).
 
 Definition zlist_eqb (a b : list Z) : bool := list_eqb Z.eqb a b.
 
@@ -28,6 +33,7 @@ Definition check_impl (c : case) : bool :=
      model of the code allows either outcome of the schedule-dependent race *)
   | CShare _ => true
   | CStress sent recvd dups early disorder => (recvd =? sent) && (dups =? 0) && (early =? 0) && (disorder =? 0)
+  | CLib ref obs foreign => forallb (zlist_eqb ref) obs && (foreign =? 0)
   end.
 
 (* spec: the clauses of the property evaluated on the observed log *)
@@ -38,4 +44,5 @@ Definition check_spec (c : case) : bool :=
   | CShare raced => negb raced      (* no data race on interpreter-owned memory *)
   (* exactly once (all channels closed and drained at the end), closure only after a close, per-sender order *)
   | CStress sent recvd dups early disorder => (recvd =? sent) && (dups =? 0) && (early =? 0) && (disorder =? 0)
+  | CLib ref obs foreign => forallb (zlist_eqb ref) obs && (foreign =? 0)
   end.
